@@ -46,6 +46,9 @@ pub struct Case {
     /// Plan of the logsim engine (C12).
     #[serde(default)]
     pub log_plan: Option<crate::logsim::LogPlan>,
+    /// Plan of the lockrace engine (C17).
+    #[serde(default)]
+    pub lock_plan: Option<crate::lockrace::LockPlan>,
     /// Embedded corrupted image + expectations (C15 replay files).
     #[serde(default)]
     pub corrupt: Option<crate::corrupt::CorruptSpec>,
